@@ -1007,6 +1007,137 @@ impl<'a> Gen<'a> {
         }
     }
 
+    /// `let <pattern> = <literal>;` / `match <literal> { <pattern> => … }` where the literal is a
+    /// tuple, nested tuple, struct literal or constructor application whose components print, and
+    /// the pattern names some components and ignores others with `_`: every component is an
+    /// operand and runs exactly once, left to right
+    fn let_literal_destructure(&mut self, sc: &mut Scope, s: &mut String) {
+        self.feat("let-literal-destructure");
+        let tag = self.fresh("dl");
+        // component j: (effectful expression, type, named?)
+        let mut comp = |g: &mut Self, j: usize, t: T| -> (String, Option<String>) {
+            let e = match t {
+                T::I32 => format!("nt_i(\"{}.{}\", {})", tag, j, g.rng.below(9)),
+                T::Bool => format!("nt_b(\"{}.{}\", {})", tag, j, if g.rng.chance(1, 2) { "true" } else { "false" }),
+                T::Str => format!("nt_s(\"{}.{}\", \"v{}\")", tag, j, j),
+                _ => format!("string_println(\"{}.{}\")", tag, j),
+            };
+            if g.rng.chance(1, 2) {
+                let v = g.fresh("dv");
+                sc.push((v.clone(), t));
+                (e, Some(v))
+            } else {
+                (e, None)
+            }
+        };
+        let pat = |n: &Option<String>| n.clone().unwrap_or_else(|| "_".to_string());
+        match self.rng.below(6) {
+            0 => {
+                self.feat("destructure:tuple");
+                let ts = [T::I32, T::Bool, T::Str, T::Unit];
+                let k = 2 + self.rng.below(2);
+                let cs: Vec<(String, Option<String>)> = (0..k).map(|j| { let t = ts[self.rng.below(4)].clone(); comp(self, j, t) }).collect();
+                write!(s, "let ({}) = ({}); ", cs.iter().map(|c| pat(&c.1)).collect::<Vec<_>>().join(", "), cs.iter().map(|c| c.0.clone()).collect::<Vec<_>>().join(", ")).unwrap();
+            }
+            1 => {
+                self.feat("destructure:nested-tuple");
+                let a = comp(self, 0, T::I32);
+                let b = comp(self, 1, T::Unit);
+                let c = comp(self, 2, T::Bool);
+                write!(s, "let (({}, {}), {}) = (({}, {}), {}); ", pat(&a.1), pat(&b.1), pat(&c.1), a.0, b.0, c.0).unwrap();
+            }
+            2 => {
+                self.feat("destructure:struct-literal");
+                let a = comp(self, 0, T::I32);
+                let b = comp(self, 1, T::Bool);
+                let c = comp(self, 2, T::Str);
+                write!(s, "let Ld {{ a: {}, b: {}, c: {} }} = Ld {{ a: {}, b: {}, c: {} }}; ", pat(&a.1), pat(&b.1), pat(&c.1), a.0, b.0, c.0).unwrap();
+            }
+            3 => {
+                self.feat("destructure:ctor-match");
+                let a = comp(self, 0, T::I32);
+                let b = comp(self, 1, T::Bool);
+                write!(s, "let _ = match Le::Mk({}, {}) {{ Le::Mk({}, {}) => string_println(\"{}.arm\"), Le::Other => (), }}; ", a.0, b.0, pat(&None), pat(&None), tag).unwrap();
+                // (the arm's bindings are local to the arm: ignore both, bind nothing outside)
+                for n in [a.1, b.1].into_iter().flatten() {
+                    sc.retain(|(x, _)| *x != n);
+                }
+            }
+            4 => {
+                self.feat("destructure:tuple-match");
+                let a = comp(self, 0, T::I32);
+                let b = comp(self, 1, T::Unit);
+                let keep = a.1.clone();
+                for n in [a.1.clone(), b.1.clone()].into_iter().flatten() {
+                    sc.retain(|(x, _)| *x != n);
+                }
+                let r = self.fresh("dm");
+                match keep {
+                    Some(x) => {
+                        write!(s, "let {} = match ({}, {}) {{ ({}, _) => {}, }}; ", r, a.0, b.0, x, x).unwrap();
+                        sc.push((r, T::I32));
+                    }
+                    None => write!(s, "let _ = match ({}, {}) {{ (_, _) => string_println(\"{}.arm\"), }}; ", a.0, b.0, tag).unwrap(),
+                }
+            }
+            _ => {
+                // inside a loop body, followed by the counter update
+                self.feat("destructure:in-loop");
+                let a = comp(self, 0, T::I32);
+                let b = comp(self, 1, T::Unit);
+                for n in [a.1.clone(), b.1.clone()].into_iter().flatten() {
+                    sc.retain(|(x, _)| *x != n);
+                }
+                let c = self.fresh("i");
+                write!(s, "let {c} = ref(0); while ref_get({c}) < 2 {{ let ({}, {}) = ({}, {}); let _ = ref_set({c}, ref_get({c}) + 1); }}; ", pat(&a.1), pat(&b.1), a.0, b.0, c = c).unwrap();
+            }
+        }
+    }
+
+    /// `go` as the first / a middle / the last statement of a loop body, of a branch or arm inside
+    /// one, of a closure body, of nested loops: the statements after it still run, and the spawned
+    /// activation itself prints
+    fn go_in_position(&mut self, s: &mut String) {
+        self.feat("go-in-position");
+        let tag = self.fresh("gp");
+        let c = self.fresh("i");
+        let go = format!("go || {{ string_println(\"{}.spawned\") }}; ", tag);
+        let after = format!("let _ = string_println(\"{}.after\"); ", tag);
+        let bump = format!("let _ = ref_set({c}, ref_get({c}) + 1); ", c = c);
+        match self.rng.below(7) {
+            0 => {
+                self.feat("go:loop-first");
+                write!(s, "let {c} = ref(0); while ref_get({c}) < 2 {{ {go}{after}{bump} }}; ", c = c, go = go, after = after, bump = bump).unwrap();
+            }
+            1 => {
+                self.feat("go:loop-middle");
+                write!(s, "let {c} = ref(0); while ref_get({c}) < 2 {{ {bump}{go}{after} }}; ", c = c, go = go, after = after, bump = bump).unwrap();
+            }
+            2 => {
+                self.feat("go:loop-last");
+                write!(s, "let {c} = ref(0); while ref_get({c}) < 2 {{ {after}{bump}{go} }}; ", c = c, go = go, after = after, bump = bump).unwrap();
+            }
+            3 => {
+                self.feat("go:branch-in-loop");
+                write!(s, "let {c} = ref(0); while ref_get({c}) < 2 {{ {bump}if ref_get({c}) > 1 {{ {go}{after}() }} else {{ () }}; {after} }}; ", c = c, go = go, after = after, bump = bump).unwrap();
+            }
+            4 => {
+                self.feat("go:arm-in-loop");
+                write!(s, "let {c} = ref(0); while ref_get({c}) < 2 {{ {bump}let _ = match ref_get({c}) {{ 0 => (), _ => {{ {go}string_println(\"{tag}.arm\") }}, }}; {after} }}; ", c = c, go = go, after = after, bump = bump, tag = tag).unwrap();
+            }
+            5 => {
+                self.feat("go:closure-body");
+                let f = self.fresh("gf");
+                write!(s, "let {f} = |gu: int32| {{ {go}{after}gu }}; let _ = {f}(1); let _ = {f}(2); ", f = f, go = go, after = after).unwrap();
+            }
+            _ => {
+                self.feat("go:nested-loop");
+                let j = self.fresh("j");
+                write!(s, "let {c} = ref(0); while ref_get({c}) < 2 {{ {bump}let {j} = ref(0); while ref_get({j}) < 2 {{ {go}{after}let _ = ref_set({j}, ref_get({j}) + 1); }}; {after} }}; ", c = c, j = j, go = go, after = after, bump = bump).unwrap();
+            }
+        }
+    }
+
     /// a boolean operand that prints when (and only when) it is evaluated, inside a shape that a
     /// shallow purity test may take for trivial
     fn loud_bool_shape(&mut self) -> String {
@@ -1091,6 +1222,9 @@ impl<'a> Gen<'a> {
                     write!(s, "let ({}) = {}; ", pats.join(", "), name).unwrap();
                 }
             }
+            7 if self.cfg.src_forms && self.cfg.effects && self.rng.chance(1, 2) => {
+                self.let_literal_destructure(sc, s);
+            }
             7 if self.cfg.src_forms => {
                 self.feat("let-struct-pattern");
                 let si = self.rng.below(self.structs.len());
@@ -1135,6 +1269,9 @@ impl<'a> Gen<'a> {
                         write!(s, "let _ = match ref_get(ref(1)) {{ 0 => (), _ => {call}, }}; ", call = call).unwrap();
                     }
                 }
+            }
+            4 if self.cfg.go_stmt && self.rng.chance(2, 3) => {
+                self.go_in_position(s);
             }
             4 if self.cfg.go_stmt => {
                 self.feat("go");
@@ -2032,6 +2169,14 @@ fn show_lst[T: Show](l: Lst[T]) -> string { match l { Lst::Nil => ".", Lst::Cons
         if self.cfg.generics {
             writeln!(src, "enum Opt[T] {{ Non, Som(T) }}").unwrap();
             writeln!(src, "fn pick[T](c: bool, a: T, b: T) -> T {{ if c {{ a }} else {{ b }} }}").unwrap();
+        }
+        if self.cfg.effects && self.cfg.src_forms {
+            // destructuring of literal right-hand sides (every component is an operand, also under `_`)
+            writeln!(src, "struct Ld {{ a: int32, b: bool, c: string }}").unwrap();
+            writeln!(src, "enum Le {{ Mk(int32, bool), Other }}").unwrap();
+            writeln!(src, "fn nt_i(s: string, v: int32) -> int32 {{ let _ = string_println(s); v }}").unwrap();
+            writeln!(src, "fn nt_b(s: string, v: bool) -> bool {{ let _ = string_println(s); v }}").unwrap();
+            writeln!(src, "fn nt_s(s: string, v: string) -> string {{ let _ = string_println(s); v }}").unwrap();
         }
         if self.cfg.logic_rhs_shapes {
             writeln!(src, "struct Lb {{ v: bool }}").unwrap();
